@@ -29,8 +29,11 @@ func smAlphabet() []smOp {
 			func(m *sourcemap.SourceMapper) { m.AddMapping(p[0], p[1]) },
 			func(m *ref.MapModel) { m.Add(p[0], p[1]) }})
 	}
-	for _, n := range []string{"a", "b"} {
-		for _, p := range pos {
+	for _, n := range []string{"a", "b", ""} {
+		for pi, p := range pos {
+			if n == "" && pi != 0 && pi != 2 {
+				continue // the empty string is a name like any other; two positions keep the alphabet small
+			}
 			p, n := p, n
 			ops = append(ops, smOp{fmt.Sprintf("AddNamed(%d,%d,%s)", p[0], p[1], n),
 				func(m *sourcemap.SourceMapper) { m.AddNamedMapping(p[0], p[1], n) },
@@ -538,6 +541,9 @@ func c09BFS(c *core.Ctx) {
 				return
 			}
 			for o := range smOps {
+				if strings.HasSuffix(smOps[o].name, ",)") {
+					continue // the empty name is covered by the stateless histories; the BFS keeps its 25-call alphabet
+				}
 				nh := append(append(make([]int, 0, len(h)+1), h...), o)
 				kind, _, mod := smRun(nh)
 				trans++
@@ -599,7 +605,7 @@ func c09Replay(pl json.RawMessage) (string, []core.Violation) {
 func init() {
 	core.Register(&core.PropSpec{
 		ID: "C09", Level: "model_checking",
-		Rule:     "all operation histories up to the stated depth over 25 builder calls (5 source positions incl. decreasing and large ones, 2 names, column advances, 7 strings mixing LF/CRLF/CR, line advance), each replayed on a fresh real SourceMapper in lock-step with a list model; mappings decoded by an independent Base64-VLQ decoder; plus every delta in [-2^20,2^20] and +-2^k(+-1), k<=31 per numeric field, all 70x70 name-index deltas across an unnamed segment; every history also with SourceMap() requested after every step (an observation must not change later output); long regular histories of 15..8193 segments around power-of-two sizes x line-break period x naming period x column advance; BFS with abstract-state dedup beyond the stateless depth. non-trivial = history with >=2 segments and a line break or a name",
+		Rule:     "all operation histories up to the stated depth over 27 builder calls (5 source positions incl. decreasing and large ones, 3 names incl. the empty string, column advances, 7 strings mixing LF/CRLF/CR, line advance), each replayed on a fresh real SourceMapper in lock-step with a list model; mappings decoded by an independent Base64-VLQ decoder; plus every delta in [-2^20,2^20] and +-2^k(+-1), k<=31 per numeric field, all 70x70 name-index deltas across an unnamed segment; every history also with SourceMap() requested after every step (an observation must not change later output); long regular histories of 15..8193 segments around power-of-two sizes x line-break period x naming period x column advance; BFS with abstract-state dedup beyond the stateless depth (over the 25 calls without the empty name). non-trivial = history with >=2 segments and a line break or a name",
 		Assume:   []string{"columns are counted per byte on ASCII input (non-ASCII column units are C08's subject)", "abstract-state dedup in the BFS part assumes the encoder's future depends only on (position, names, last segment, last name index)"},
 		QuickSec: 300, ThorSec: 1800, Run: c09Run, Replay: c09Replay,
 		Evals: "histories", Nontriv: "nontrivial", States: "bfs_states", Trans: "bfs_transitions",
